@@ -90,6 +90,43 @@ Theorem validate_accepts_normalised_configs : forall c, known_mode (T_RecursionF
 Proof. exact gen_validate_accepts. Qed.
 Print Assumptions validate_accepts_normalised_configs.
 
+(* ---- Normalize (session 3, translator stage with receiver-mutating methods): the model's norm_model IS the
+   srcgen translation of config.RecursionFirewallConfig.Normalize; Validate after Normalize accepts every configuration
+   whose mode is omitted or one of the three names, whichever limits are omitted (so MustRecursionWorkPolicyFromConfig
+   does not panic on it), and refuses every other mode text — Normalize never repairs one; policy_of_config, which the
+   CasePolicy cases compare the real MustRecursionWorkPolicyFromConfig with, is Normalize followed by the mode switch *)
+Theorem normalize_is_the_translated_function : forall c, go_RecursionFirewallConfig_Normalize c = norm_model c.
+Proof. exact gen_normalize. Qed.
+Print Assumptions normalize_is_the_translated_function.
+
+Theorem validate_accepts_every_normalised_config : forall c,
+  (T_RecursionFirewallConfig_Mode c = [] \/ known_mode (T_RecursionFirewallConfig_Mode c)) -> failure_cache_fields_ok c ->
+  go_RecursionFirewallConfig_Validate (go_RecursionFirewallConfig_Normalize c) = false.
+Proof. exact validate_normalize_accepts. Qed.
+Print Assumptions validate_accepts_every_normalised_config.
+
+Theorem unknown_mode_survives_normalize_and_is_refused : forall c,
+  T_RecursionFirewallConfig_Mode c <> [] -> ~ known_mode (T_RecursionFirewallConfig_Mode c) ->
+  go_RecursionFirewallConfig_Validate (go_RecursionFirewallConfig_Normalize c) = true.
+Proof. exact validate_normalize_refuses. Qed.
+Print Assumptions unknown_mode_survives_normalize_and_is_refused.
+
+Theorem policy_of_config_is_normalize_then_switch : forall mt l0 l1 l2 l3 l4 l5 l6 l7 s tmin tmax, mt <= 3 ->
+  policy_of_config mt [l0; l1; l2; l3; l4; l5; l6; l7] =
+  Some (policy_of_normalized (go_RecursionFirewallConfig_Normalize
+          (mk_T_RecursionFirewallConfig (mode_text_name mt) l0 l1 l2 l3 l4 l5 l6 l7 s tmin tmax))).
+Proof. exact policy_of_config_is_normalize. Qed.
+Print Assumptions policy_of_config_is_normalize_then_switch.
+
+(* non-vacuity: everything omitted; a tiny aggregate with the per-RRset allowance omitted (the shape of seeded C12-5) *)
+Example normalize_example :
+  let c0 := mk_T_RecursionFirewallConfig [] 0 0 0 0 0 0 0 0 0%Z (mk_T_Duration 0) (mk_T_Duration 0) in
+  let c5 := mk_T_RecursionFirewallConfig name_enforce 3 28 35 0 1 194 2 8 0%Z (mk_T_Duration 0) (mk_T_Duration 0) in
+  go_RecursionFirewallConfig_Validate (go_RecursionFirewallConfig_Normalize c0) = false /\
+  policy_of_normalized (go_RecursionFirewallConfig_Normalize c0) = mk_T_RecursionWorkPolicy mode_shadow 128 32 4 8 32 32 32 32 /\
+  policy_of_normalized (go_RecursionFirewallConfig_Normalize c5) = mk_T_RecursionWorkPolicy mode_enforce 3 28 35 8 1 194 2 8.
+Proof. vm_compute. repeat split. Qed.
+
 (* ---- (i) the ledger.  For every number of threads, every list of debits per thread and EVERY
    schedule of the atomic steps (Load; compare, CompareAndSwap): in every reachable state, per kind,
    the counter equals the number of accepted debits and never passes the cap. *)
